@@ -8,6 +8,7 @@ package main
 //   gsv list                                     list functions under contract
 
 import (
+	"regexp"
 	"encoding/json"
 	"flag"
 	"fmt"
@@ -167,7 +168,7 @@ func queryText(eng *Engine, ob *Obligation) string {
 	var sb strings.Builder
 	body := strings.Join(ob.Script.lines[:ob.Mark], "\n")
 	tail := "(assert " + ob.Cond + ")\n(assert (not " + ob.Goal + "))\n"
-	prel, _ := eng.preludeFor(body + "\n" + tail)
+	prel, _ := eng.preludeFor(body+"\n"+tail, ob.Kind == "lemma")
 	sb.WriteString("; obligation " + ob.Name + "\n; " + ob.Pos + "\n; " + strings.ReplaceAll(ob.Text, "\n", " ") + "\n")
 	sb.WriteString("(set-option :produce-models true)\n(set-logic ALL)\n")
 	sb.WriteString(prel)
@@ -214,10 +215,93 @@ func runObligations(eng *Engine, obls []*Obligation, dir string, o options) {
 				return
 			}
 			ob.Result, ob.All = raceSolvers(file, o.timeout, o.seed, o.tier == "thorough")
+			if ob.Result.Verdict != "unsat" && ob.Result.Verdict != "sat" && ob.Result.Verdict != "disagree" && ob.Kind != "lemma" {
+				// undecided: case split on the disjuncts of the path condition (exit paths / join
+				// predecessors); the obligation is discharged when every case is
+				if r, ok := splitAndSolve(eng, ob, q, dir, o); ok {
+					ob.Result = r
+					ob.All = append(ob.All, r)
+				}
+			}
+			if ob.Result.Verdict != "unsat" && ob.Result.Verdict != "sat" && ob.Result.Verdict != "disagree" {
+				if r, all := raceSolversAlt(file, o.timeout, o.seed); r.Verdict == "unsat" {
+					ob.Result = r
+					ob.All = append(ob.All, all...)
+				}
+			}
 		}(ob)
 	}
 	wg.Wait()
 }
+
+// splitAndSolve proves an obligation by cases: reach constants are defined as disjunctions of
+// edge conditions (merge points); each disjunct is added as an extra assumption, recursively.
+func splitAndSolve(eng *Engine, ob *Obligation, q, dir string, o options) (SolverResult, bool) {
+	defs := map[string][]string{}
+	for _, ln := range ob.Script.lines[:ob.Mark] {
+		if strings.HasPrefix(ln, "(assert (= reach!") || strings.HasPrefix(ln, "(assert (= |reach!") {
+			inner := ln[len("(assert (= ") : len(ln)-2]
+			parts := splitSexprs(inner)
+			if len(parts) == 2 && strings.HasPrefix(parts[1], "(or ") {
+				defs[parts[0]] = splitSexprs(parts[1][4 : len(parts[1])-1])
+			}
+		}
+	}
+	total := 0.0
+	leaves := 0
+	budget := 96
+	canSplit := func(cond string) (string, bool) {
+		for _, sym := range reReach.FindAllString(cond, -1) {
+			if ds, ok := defs[sym]; ok && len(ds) > 1 {
+				return sym, true
+			}
+		}
+		return "", false
+	}
+	var rec func(extra []string, cond string, depth int) bool
+	rec = func(extra []string, cond string, depth int) bool {
+		sym, splittable := canSplit(cond)
+		if depth >= 6 || leaves > budget {
+			splittable = false
+		}
+		if depth > 0 {
+			body := strings.Replace(q, "(check-sat)", "(assert "+sAnd(extra...)+")\n(check-sat)", 1)
+			body = strings.Replace(body, "(get-model)", "", 1)
+			file, err := writeQuery(dir, fmt.Sprintf("%s.case%d", ob.Name, leaves), body)
+			leaves++
+			if err != nil {
+				return false
+			}
+			var r SolverResult
+			if splittable {
+				// inner node: a short attempt, then go deeper (deeper cases are much cheaper)
+				r = runSolver(bgctx(), solvers[0], file, 4, o.seed)
+			} else {
+				r, _ = raceSolvers(file, o.timeout, o.seed, false)
+			}
+			total += r.Time
+			if r.Verdict == "unsat" {
+				return true
+			}
+			if !splittable {
+				return false
+			}
+		}
+		if !splittable {
+			return false
+		}
+		for _, d := range defs[sym] {
+			if !rec(append(append([]string(nil), extra...), d), d, depth+1) {
+				return false
+			}
+		}
+		return true
+	}
+	ok := rec(nil, ob.Cond, 0)
+	return SolverResult{Verdict: "unsat", Solver: fmt.Sprintf("case-split(%d)", leaves), Time: total}, ok
+}
+
+var reReach = regexp.MustCompile(`\|?reach![0-9]+\|?`)
 
 // ---------------------------------------------------------------- check
 
